@@ -9,6 +9,9 @@ change straight away (`git -C /repo checkout -- .`).  The evidence directory is 
 back afterwards: evidence describes runs on the current tree only.  /repo must be clean to start."""
 import json, os, re, shutil, subprocess, sys, time
 ROOT = os.path.dirname(os.path.dirname(os.path.abspath(__file__)))
+# the repository the changes are applied to: /repo, or (tools/seeded_par.sh) a scratch clone of it that
+# this copy of the framework's harness has been pointed at
+REPO = os.environ.get("SEEDED_REPO", "/repo")
 args = sys.argv[1:]
 allp = "--all" in args
 tier = "quick"
@@ -21,7 +24,7 @@ ids = [a for a in args if not a.startswith("--") and a not in ("quick", "thoroug
 seeded = os.path.join(ROOT, "seeded")
 if not ids:
     ids = sorted(d for d in os.listdir(seeded) if os.path.isdir(os.path.join(seeded, d)))
-assert subprocess.run(["git", "-C", "/repo", "diff", "--quiet"]).returncode == 0, "/repo has local changes"
+assert subprocess.run(["git", "-C", REPO, "diff", "--quiet"]).returncode == 0, "/repo has local changes"
 props = ["C%02d" % i for i in range(1, 21)]
 ev = os.path.join(ROOT, "evidence")
 evsave = os.path.join(ROOT, "run", "evidence.saved")
@@ -34,7 +37,7 @@ try:
         d = os.path.join(seeded, sid)
         meta = json.load(open(os.path.join(d, "meta.json")))
         prop = meta["property"]
-        r = subprocess.run(["git", "-C", "/repo", "apply", os.path.join(d, "patch.diff")])
+        r = subprocess.run(["git", "-C", REPO, "apply", os.path.join(d, "patch.diff")])
         assert r.returncode == 0, "patch does not apply: " + sid
         try:
             results = {}
@@ -53,7 +56,7 @@ try:
                 if r.returncode not in (0, 1):
                     results[p]["tail"] = r.stdout.strip().splitlines()[-5:]
         finally:
-            subprocess.run(["git", "-C", "/repo", "checkout", "--", "."], check=True)
+            subprocess.run(["git", "-C", REPO, "checkout", "--", "."], check=True)
         fw = meta.setdefault("framework", {})
         fw[label or tier] = {"seed": os.environ.get("VERIF_SEED", "1"), "ran": "git -C /repo apply seeded/%s/patch.diff; ./check <Cxx> %s; git -C /repo checkout -- ." % (sid, tier),
                     "results": results,
@@ -65,7 +68,7 @@ try:
         print(line, flush=True)
         summary.append(line)
 finally:
-    subprocess.run(["git", "-C", "/repo", "checkout", "--", "."])
+    subprocess.run(["git", "-C", REPO, "checkout", "--", "."])
     shutil.rmtree(ev, ignore_errors=True)
     shutil.copytree(evsave, ev)
     shutil.rmtree(evsave, ignore_errors=True)
